@@ -737,9 +737,9 @@ def real_macro(ctx, viol, listed):
             for i in range(12)}
     open(ctl, "w").write(json.dumps({"definitions": defs}))
     patch = ", ".join('T%d = { rename = "R%d", derives = [PartialEq] }' % (i, i) for i in range(0, 12, 2))
-    repl = ", ".join("T%d = my::X" % i for i in range(1, 12, 4))
+    repl = ", ".join("T%d = crate::my::X" % i for i in range(1, 12, 4))
     control = ('schema = "%s", struct_builder = true, patch = { %s }, replace = { %s }, '
-               'convert = { { type = "string", format = "fa" } = my::X, { type = "string", format = "fb" } = my::Y : ?Display }' % (ctl, patch, repl))
+               'convert = { { type = "string", format = "fa" } = crate::my::X, { type = "string", format = "fb" } = crate::my::Y : ?Display }' % (ctl, patch, repl))
     outs = expand_macro(control, N_PROC)
     same = len(set(outs)) == 1
     ctx.coverage["real_macro_control_expansions"] = len(outs)
@@ -747,11 +747,11 @@ def real_macro(ctx, viol, listed):
     if not same:
         viol.append({"kind": "real-macro-expansion-differs-across-processes", "macro_input": control,
                      "run_a": {"text": outs[0][-3000:]}, "run_b": {"text": [o for o in outs if o != outs[0]][0][-3000:]}})
-    witness = ('schema = "%s", convert = { { type = "string", format = "fa" } = my::X, { type = "string", format = "fb" } = my::X }' % wit)
+    witness = ('schema = "%s", convert = { { type = "string", format = "fa" } = crate::my::X, { type = "string", format = "fb" } = crate::my::X }' % wit)
     outs = expand_macro(witness, 2 * N_PROC)
     ctx.evaluations += len(outs)
     ctx.coverage["real_macro_witness_distinct_outputs"] = len(set(outs))
-    ctx.coverage["real_macro_witness_From_impl_counts"] = sorted({o.count("From<my::X>") for o in outs})
+    ctx.coverage["real_macro_witness_From_impl_counts"] = sorted({o.count("From<crate::my::X>") for o in outs})
     if len(set(outs)) > 1:
         if "C12-F1" in listed:
             ctx.known_finding("C12-F1", "C12-F1: %s (REAL macro: %d distinct expansions in %d fresh rustc processes)"
